@@ -205,7 +205,7 @@ _ST = ["the Hypothesis-driven base state machine is replaced by a stub whose run
 OBLIGATIONS = [
     Ob(fn="stateful_loop", props=("C05", "C11"),
        clause="C11: every suite/scenario of the stateful phase is opened and closed exactly once with matching ids and the loop terminates; C05: a failing/erroring run is reported by its suite status (and an error event)",
-       timeout={"quick": 250, "thorough": 900}, params=range(7), param_names=["first run: " + o for o in OUTCOMES], functions=_F[:2],
+       timeout={"quick": 250, "thorough": 500}, params=range(7), param_names=["first run: " + o for o in OUTCOMES], functions=_F[:2],
        symbolic="outcome of the 2nd (and, thorough, 3rd) state-machine run (7 kinds; 1st enumerated), stop-flag flip read, max_failures, a failure already counted",
        bounds={"quick": "<= 2 re-runs", "thorough": "<= 3 re-runs"}, stubs=_ST, outside=["real Hypothesis state-machine execution, links", "the consumer thread of stateful.execute"]),
     Ob(fn="stateful_override", props=("C14",),
